@@ -16,6 +16,7 @@ from . import simrt
 class Net:
     def __init__(self, capacity=65536, partial=None):
         self.capacity = capacity          # receive buffer of every endpoint (= what a sender can have in flight)
+        self.rcvbuf = capacity // 2       # the part of it that is the receiver's kernel buffer (rest: sender's queue)
         self.partial = partial            # optional callable(n_offered, free) -> n_accepted (models short writes)
         self.listeners = {}               # port -> Listener
         self.waiters = []                 # sim threads blocked in select
@@ -59,6 +60,7 @@ class Endpoint:
         self.rx = bytearray()
         self.closed = False       # this end was closed locally
         self.fin = False          # peer closed (EOF after rx drained)
+        self.rst = False          # peer closed abortively (SO_LINGER on, 0 s): ECONNRESET after rx drained
         self.total_in = 0
 
     # driver API
@@ -81,11 +83,20 @@ class Endpoint:
             self.net.wake()
         return data
 
-    def close(self):
+    def close(self, abort=False):
         if not self.closed:
             self.closed = True
             if self.peer is not None:
                 self.peer.fin = True
+                if abort:
+                    # close() with SO_LINGER (on, 0): RST instead of FIN, whatever still sits in the local send queue is
+                    # discarded.  peer.rx stands for send queue + peer receive buffer; the first rcvbuf bytes are taken
+                    # to have reached the peer's receive buffer already.
+                    lost = max(0, len(self.peer.rx) - self.net.rcvbuf)
+                    if lost:
+                        del self.peer.rx[self.net.rcvbuf:]
+                        self.net.log.append(("abort", lost))
+                    self.peer.rst = True
             self.net.wake()
 
 
@@ -106,10 +117,20 @@ class SimSocket:
         self.port = None
         self.blocking = True
         self.closed = False
+        self.opts = {}
 
-    # -- options (accepted, ignored)
+    # -- options (recorded; SO_LINGER changes close())
     def setsockopt(self, *a):
+        self.opts[tuple(a[:2])] = a[2] if len(a) > 2 else None
         return None
+
+    def _abortive(self):
+        v = self.opts.get((_rs.SOL_SOCKET, _rs.SO_LINGER))
+        if isinstance(v, (bytes, bytearray)) and len(v) >= 8:
+            import struct
+            on, secs = struct.unpack("ii", bytes(v[:8]))
+            return bool(on) and secs == 0
+        return False
 
     def setblocking(self, flag):
         self.blocking = bool(flag)
@@ -229,6 +250,8 @@ class SimSocket:
         if self.closed or self.ep is None:
             raise OSError(errno.EBADF, "bad file descriptor")
         while not self.ep.rx:
+            if self.ep.rst:
+                raise ConnectionResetError(errno.ECONNRESET, "connection reset by peer")
             if self.ep.fin:
                 return b""
             if not self.blocking:
@@ -254,7 +277,7 @@ class SimSocket:
             if self.net.listeners.get(self.port) is self.listener:
                 del self.net.listeners[self.port]
         if self.ep is not None:
-            self.ep.close()
+            self.ep.close(abort=self._abortive())
         self.net.wake()
 
     # -- readiness for select
@@ -314,9 +337,11 @@ def sim_select(rlist, wlist, xlist, timeout=None):
             net.waiters.remove(s.me())
 
 
-socket_shim = types.SimpleNamespace(
-    socket=SimSocket, AF_INET=_rs.AF_INET, SOCK_STREAM=_rs.SOCK_STREAM, SOL_SOCKET=_rs.SOL_SOCKET, SO_KEEPALIVE=_rs.SO_KEEPALIVE,
-    SO_REUSEADDR=_rs.SO_REUSEADDR, SHUT_RDWR=_rs.SHUT_RDWR, error=OSError, timeout=_rs.timeout)
+# every constant of the real module (AF_*, SOL_*, SO_*, SHUT_*, TCP_*, ...), the socket class replaced
+socket_shim = types.SimpleNamespace(**{k: v for k, v in vars(_rs).items() if k.isupper() and isinstance(v, int)})
+socket_shim.socket = SimSocket
+socket_shim.error = OSError
+socket_shim.timeout = _rs.timeout
 select_shim = types.SimpleNamespace(select=sim_select)
 
 
